@@ -2839,8 +2839,11 @@ impl Compiler {
                 _ => {
                     // With no registers available, pushing a register for the first element
                     // reports the error (a chunk size of zero would panic).
+                    // The batches are kept small: a literal with hundreds of elements would
+                    // otherwise claim every register of the frame, leaving none for operations
+                    // that are started from native code while the frame is active.
                     let max_batch_size =
-                        (self.frame().available_registers_count() as usize).max(1);
+                        (self.frame().available_registers_count() as usize).clamp(1, 64);
                     for elements_batch in elements.chunks(max_batch_size) {
                         let stack_count = self.stack_count();
                         let start_register = self.frame().next_temporary_register();
